@@ -3,6 +3,7 @@ import Proofs.Lemmas.BeaconBlockM
 import Proofs.Lemmas.BeaconBlockCompose
 import Proofs.Lemmas.BeaconBlockSteps
 import Proofs.Lemmas.BeaconBlockP0Dep
+import Proofs.Lemmas.BeaconBlockAltair
 /-!
 # C03 — every block or operation the spec rejects is rejected, without panicking
 
@@ -297,7 +298,7 @@ specification rejects is rejected by `phase0.ProcessBlock` and by `PostSlotTrans
 runaway loop; a block the model accepts is not one the specification rejects. For every pre-state satisfying the
 invariant `P0DInv` (see `Zrnt.Proofs.C01.processBlock_phase0_eq`). -/
 theorem M_sound_phase0 (cfg : Config) (S0 : State) (p Bm C k : Nat) (K : P0Const cfg S0 Bm C) (KA : P0AConst cfg)
-    (KD : P0DConst cfg Bm) (ctx : BlockM.Ctx) (block : SignedBlock) (hb : Phase0Block cfg Bm block)
+    (KD : P0DConst cfg Bm) (hF : S0.fork = .phase0) (ctx : BlockM.Ctx) (block : SignedBlock) (hb : Phase0Block cfg Bm block)
     (hi : P0DInv cfg S0 p Bm C (Zrnt.Proofs.BlockM.blockNeed block k) ctx S0) (htyped : Block.check_types cfg block = .ok ())
     (r : Bytes) (hroot : block.o_post_root = some r) :
     (∀ m, Block.process_block cfg S0 block = .error (.invalid m) → BlockM.processBlock cfg ctx S0 block = .err) ∧
@@ -305,8 +306,28 @@ theorem M_sound_phase0 (cfg : Config) (S0 : State) (p Bm C k : Nat) (K : P0Const
     Safe (BlockM.processBlock cfg ctx S0 block) ∧ Safe (BlockM.postSlotTransition cfg ctx S0 block) ∧
     (∀ post, BlockM.postSlotTransition cfg ctx S0 block = .ok post →
       ∀ m, Block.state_transition_post_slots cfg S0 block ≠ .error (.invalid m)) := by
-  have h1 := (Zrnt.Proofs.BlockM.processBlock_phase0 cfg S0 p Bm C k K KA KD ctx block hb hi htyped).1
-  have h2 := Zrnt.Proofs.BlockM.postSlot_phase0 cfg S0 p Bm C k K KA KD ctx block hb hi htyped r hroot
+  have h1 := (Zrnt.Proofs.BlockM.processBlock_phase0 cfg S0 p Bm C k K KA KD hF ctx block hb hi htyped).1
+  have h2 := Zrnt.Proofs.BlockM.postSlot_phase0 cfg S0 p Bm C k K KA KD hF ctx block hb hi htyped r hroot
+  refine ⟨h1.1.2, h2.1.2, h1.2, h2.2, fun post hp m hm => ?_⟩
+  have := h2.1.2 m hm
+  rw [hp] at this
+  cases this
+
+open Zrnt.Proofs.BlockM (P0Const P0AConst P0DConst AltConst AltInv AltairBlock Safe) in
+/-- `M_sound_altair` — C03 for altair WITHOUT the premise `OpSteps`: every altair block (of the block type) that the
+specification rejects is rejected by `altair.ProcessBlock` and by `PostSlotTransition`, without panic and without a
+runaway loop. For every pre-state satisfying `AltInv` (see `Zrnt.Proofs.C01.processBlock_altair_eq`). -/
+theorem M_sound_altair (cfg : Config) (S0 : State) (p Bm C T k : Nat) (committee : SyncCommittee) (K : P0Const cfg S0 Bm C)
+    (KA : P0AConst cfg) (KD : P0DConst cfg Bm) (KL : AltConst cfg S0 Bm T) (hF : S0.fork = .altair) (ctx : BlockM.Ctx) (block : SignedBlock)
+    (hb : AltairBlock cfg Bm block) (hi : AltInv cfg S0 p Bm C T committee (Zrnt.Proofs.BlockM.blockNeed block k) ctx S0)
+    (htyped : Block.check_types cfg block = .ok ()) (r : Bytes) (hroot : block.o_post_root = some r) :
+    (∀ m, Block.process_block cfg S0 block = .error (.invalid m) → BlockM.processBlock cfg ctx S0 block = .err) ∧
+    (∀ m, Block.state_transition_post_slots cfg S0 block = .error (.invalid m) → BlockM.postSlotTransition cfg ctx S0 block = .err) ∧
+    Safe (BlockM.processBlock cfg ctx S0 block) ∧ Safe (BlockM.postSlotTransition cfg ctx S0 block) ∧
+    (∀ post, BlockM.postSlotTransition cfg ctx S0 block = .ok post →
+      ∀ m, Block.state_transition_post_slots cfg S0 block ≠ .error (.invalid m)) := by
+  have h1 := (Zrnt.Proofs.BlockM.processBlock_altair cfg S0 p Bm C T k committee K KA KD KL hF ctx block hb hi htyped).1
+  have h2 := Zrnt.Proofs.BlockM.postSlot_altair cfg S0 p Bm C T k committee K KA KD KL hF ctx block hb hi htyped r hroot
   refine ⟨h1.1.2, h2.1.2, h1.2, h2.2, fun post hp m hm => ?_⟩
   have := h2.1.2 m hm
   rw [hp] at this
